@@ -265,6 +265,9 @@ func Do(hc *http1.HostClient, req *protocol.Request, timeout time.Duration) *Out
 				resp.CloseBodyStream()
 			}
 		}
+		// back to the pool, as applications do: the next call (possibly through a client
+		// with other options) gets a recycled Response
+		protocol.ReleaseResponse(resp)
 	}()
 	t := time.NewTimer(timeout)
 	defer t.Stop()
